@@ -120,7 +120,8 @@ def requests(case):
 		imf, r850, asc, year = forms(case[1])
 		return ['c %d' % case[1], 'p %s' % imf.hex(), 'p %s' % r850.hex(), 'p %s' % asc.hex()]
 	if case[0] == 'cmp':
-		return ['cmp %d %d' % (case[1], case[2])]
+		imf, r850, asc, year = forms(case[2])
+		return ['cmp %d %d %s %s %s' % (case[1], case[2], imf.hex(), r850.hex() if 1970 <= year <= 2068 else '-', asc.hex())]
 	return ['p %s' % case[1].hex()] if case[1] else ['p 00']
 
 
@@ -196,6 +197,9 @@ def oracle(case):
 	if case[0] == 'cmp':
 		a, b = case[1], case[2]
 		exp = '%d %d %d %d %d' % (a < b, a > b, a == b, a < b, a == b)
+		imf, r850, asc, year = forms(b)
+		nops = 1 + 2 * (3 if 1970 <= year <= 2068 else 2)
+		exp += (' %d%d%d%d%d%d' % (a < b, a > b, a == b, a != b, a <= b, a >= b)) * nops
 		if base[0] != exp:
 			return {'what': 'date comparison disagrees with comparison of the instants', 'a': a, 'b': b, 'got': base[0], 'expected': exp, 'finding': None}
 	return None
